@@ -64,6 +64,26 @@ type T6 struct{ K string }
 func (*T6) Aa() string { return "T6.Aa" }
 func (T6) Zz() string  { return "T6.Zz" }
 
+// Lang: a named string type as map key
+type Lang string
+
+// Doc/Head: &doc and &doc.Head are pointers of different types with the same address; Z1/Z2: pointers
+// to distinct zero-size types may share an address too
+type Head struct {
+	Name string
+	K    string
+}
+type Doc struct {
+	Head Head
+	Name string
+	B    string
+}
+type Z1 struct{}
+type Z2 struct{}
+
+func (Z1) M() string { return "Z1.M" }
+func (Z2) M() string { return "Z2.M" }
+
 // two distinct types whose String() is the same ("main.L"), with different layouts
 func localA() interface{} {
 	type L struct{ A, B string }
@@ -80,7 +100,10 @@ type obj struct {
 }
 
 func objects() []obj {
+	doc := &Doc{Head{"inner", "hk"}, "outer", "db"}
 	return []obj{
+		{"*Doc", doc}, {"*Head", &doc.Head}, {"*Z1", &Z1{}}, {"*Z2", &Z2{}},
+		{"mlang", map[Lang]string{"A": "la", "Q": "lq", "Name": "ln"}},
 		{"T1", T1{"a1", "b1"}}, {"*T1", &T1{"a1p", "b1p"}},
 		{"T2", T2{"b2", "a2"}}, {"*T2", &T2{"b2p", "a2p"}},
 		{"T3", T3{In{"p3"}, "q3", "x"}}, {"*T3", &T3{In{"p3p"}, "q3p", "x"}},
@@ -95,13 +118,17 @@ func objects() []obj {
 	}
 }
 
-var attrNames = []string{"A", "B", "M", "PM", "P", "IM", "Q", "a", "Arg", "Nope", "M5", "Zz", "Aa", "K"}
+var attrNames = []string{"A", "B", "M", "PM", "P", "IM", "Q", "a", "Arg", "Nope", "M5", "Zz", "Aa", "K", "Name"}
 
 // want: the stateless reference, from reflect only. ok=false: the statement leaves the case open.
 func want(v interface{}, name string) (string, bool) {
 	rv := reflect.ValueOf(v)
 	if rv.Kind() == reflect.Map {
-		mv := rv.MapIndex(reflect.ValueOf(name))
+		kv := reflect.ValueOf(name)
+		if rv.Type().Key().Kind() == reflect.String {
+			kv = kv.Convert(rv.Type().Key())
+		}
+		mv := rv.MapIndex(kv)
 		if !mv.IsValid() {
 			return "", true
 		}
@@ -308,6 +335,12 @@ func alphabet(thorough bool) []lookup {
 	// they must not change what the pointer (or anything else) answers afterwards
 	add("T1", "PM")
 	add("T6", "Aa")
+	// the same name on maps of three key types, and on two pointers that share an address
+	add("mlang", "A")
+	add("msi", "A")
+	add("mii", "A")
+	add("*Doc", "Name")
+	add("*Head", "Name")
 	if thorough {
 		add("*T6", "Aa", "K")
 		add("T1", "B", "Arg", "Nope")
@@ -317,8 +350,10 @@ func alphabet(thorough bool) []lookup {
 		add("*T3", "P")
 		add("Deep", "P", "Q")
 		add("T5", "M5")
-		add("msi", "A", "Q")
-		add("mii", "A")
+		add("msi", "Q")
+		add("mlang", "Q")
+		add("*Z1", "M")
+		add("*Z2", "M")
 		for i, o := range objs {
 			if o.name == "map" {
 				a = append(a, lookup{Obj: i, Attr: "B", Sub: true})
@@ -336,7 +371,7 @@ func main() {
 		ID:    "C20",
 		Level: "model_checking",
 		Rule: "every sequence of attribute lookups over the alphabet up to the depth bound, from an empty attribute cache and from caches pre-filled to just below / at the (lowered) limit, " +
-			"crossed with every eviction-order alternative within the deviation bound; plus every (object, name) pair and every short sequence after pre-filling past the real limit of 1000; plus, for 9 first steps (field, value/pointer-receiver methods returning values, pointers, slices, the receiver itself) x every ordered pair of 6 objects x 7 holding shapes (set, list and hash literals, macro arguments, intervening lookups, loops), an answer held across later lookups of the same name on other values must show what the same chain shows immediately; non-trivial = the history repeats a name on a different type or crosses the eviction threshold",
+			"crossed with every eviction-order alternative within the deviation bound; plus every (object, name) pair and every short sequence after pre-filling past the real limit of 1000; plus, for 9 first steps (field, value/pointer-receiver methods returning values, pointers, slices, the receiver itself) x every ordered pair of 6 objects x 7 holding shapes (set, list and hash literals, macro arguments, intervening lookups, loops), an answer held across later lookups of the same name on other values must show what the same chain shows immediately; plus every ordered pair of alphabet lookups inside ONE render (cold and warm cache), each answering what it answers alone; non-trivial = the history repeats a name on a different type or crosses the eviction threshold",
 		Assumptions: []string{
 			"the cache limit is lowered through an overlay-only accessor added to package twig at build time (black-box mode with the real limit if that file does not compile against the tree)",
 			"eviction order: the map iteration inside the eviction is an explorer choice (rotations, reversal, transpositions of the canonical order for more than 4 entries); time is a logical clock",
@@ -389,6 +424,8 @@ func run(t *vlib.T) {
 
 	// (1b) answers held across later lookups (held.go)
 	heldCases(t)
+	// (1c) several lookups inside one render (pair.go)
+	pairCases(t)
 
 	// (2) histories with a lowered limit, from empty and pre-filled caches
 	for _, limit := range limits {
